@@ -18,7 +18,7 @@
    MAX_ITER when its inner _phase2 run was cut short with the auxiliary objective still below minus
    that threshold, INFEASIBLE only when that run ended by itself; and 96ecc58 (every constraint row
    and its right-hand side are divided by the row's largest absolute coefficient when the tableau is
-   built). *)
+   built) and 39737f0 (so is the objective row). *)
 From Coq Require Import List QArith Qabs Bool Arith.
 From SV Require Import C03.LPSpec.   (* dot: sum(cj * xj for cj, xj in zip(c, solution)) *)
 Import ListNotations.
@@ -293,7 +293,7 @@ Definition init_tableau (minimize : bool) (c : list Q) (A : list (list Q)) (b : 
   let m := length b in
   let w := if minimize then c else map Qopp c in
   mkT (mapi (fun i Ai => rnorm (scaled_row Ai ++ unit_vec m i, nth i b 0 / row_scale Ai)) (firstn m A))
-      (map Qred w ++ zeros m, 0).
+      (map Qred (scaled_row w) ++ zeros m, 0).   (* objective row scaled the same way (commit 39737f0) *)
 
 Definition solve_lp (eps : Q) (minimize : bool) (max_iter : nat)
            (c : list Q) (A : list (list Q)) (b : list Q) : lp_result :=
